@@ -1,8 +1,10 @@
 """C01 - messaging transports deliver exactly the accepted messages, whole, in order."""
 import json
-from gen import common, framing, ux
+from gen import common, framing, ux, api
 
-LEAN_MODULE = "XcmModel.Props.C01"
+# the framing theorems (C01) are relative to the byte-stream contract of the layer below and speak about the non-blocking calls:
+# the TLS byte stream's side of that contract (C02btls) and the blocking wrappers of xcm.c (C03) are re-checked here too
+LEAN_MODULE = ["XcmModel.Props.C01", "XcmModel.Props.C02", "XcmModel.Props.C03"]
 THEOREMS = [
     "XcmModel.Wire.frames_prefix", "XcmModel.Wire.eq_frame_of_complete",
     "XcmModel.Framing.tfs_spec", "XcmModel.Framing.bufferMsg_spec",
@@ -10,6 +12,9 @@ THEOREMS = [
     "XcmModel.C01.C01_exact_delivery", "XcmModel.C01.C01_no_more_than_accepted",
     "XcmModel.C01.C01_never_partial",
     "XcmModel.Ux.inv_run", "XcmModel.C01.C01_ux_exact_delivery",
+    "XcmModel.C02btls.C02_btls_accepted_is_written_plus_retained", "XcmModel.C02btls.C02_btls_send_accepts_prefix",
+    "XcmModel.C02btls.C02_btls_retry_discipline", "XcmModel.C03btls.C03_btls_finish_success_means_flushed",
+    "XcmModel.C03.C03_blocking_send_no_false_failure", "XcmModel.C03.C03_blocking_send_accepted_once",
 ]
 
 
@@ -35,6 +40,25 @@ def run(ctx):
                     ctx.nontriv((o, l))
             if k == 0 and variant == "tcp":
                 ctx.sample({"harness": "unit_framing_tcp", "ops": ops[:10], "model_out": m[:10]})
+    # below the tls transport: the TLS byte stream (accepts, retains, re-offers; nothing lost, duplicated or reordered)
+    from gen import btls as _btls
+    _btls.run_part(ctx, 10 if quick else 300, exhaustive=True)
+    ctx.rule += "; unit_btls: the real xcm_tp_btls.c with scripted OpenSSL answers (partial SSL_write of retained output included) vs the Lean Btls model"
+    # above the transports: the blocking forms of xcm_send / xcm_receive in xcm.c
+    aexe = api.build()
+    amon = api.Monitor(ctx)
+    aops = []
+    for k in range(120 if quick else 4000):
+        aops += api.gen_history(ctx.rng.fork("api%d" % k), 25, ctx)
+        if len(aops) > 3000 or k == (120 if quick else 4000) - 1:
+            m, il = ctx.differential("unit_api", "api", aexe, aops, label="api")
+            amon.run(aops, il)
+            for o, l in zip(aops, m):
+                ctx.nontriv(("api", o.split()[0], l[:100]))
+            aops = []
+        if ctx.over_budget():
+            break
+    ctx.rule += "; unit_api: the real xcm.c wrappers in blocking and non-blocking mode over a scripted transport and poll() (EINTR between acceptance and flush included) vs the Lean Api model"
     ux.run_part(ctx, 30 if quick else 1500, "c01")
     ctx.rule += "; unit_ux: the real ux_send/ux_receive/ux_update of xcm_tp_ux.c with scripted kernel send()/recv() (record accepted / EAGAIN / EINTR / errors; records of any size against any capacity) vs the Lean Ux model + monitor"
 
